@@ -148,6 +148,8 @@ def _plan_job(args):
                               userids=userids, timeout=plan.get('timeout', 1500))
         budget = plan.get('budget', 6000) if tier == 'quick' else plan.get('budget_thorough')
         stages = plan.get('stages') or [(lambda lab, dst: True, 1.0)]
+        if plan.get('state_cover'):
+            stages = [(tours.bfs_tree_edges(g), plan['state_cover'])] + list(stages)
         ts, covered, total = tours.staged_tours(g, stages, maxlen=plan.get('maxlen', 40), budget=budget, seed=seed)
         runs += [{'acts': [to_act(l) for l in t], 'src': 'tour'} for t in ts]
         simc = plan.get('sim')
